@@ -72,20 +72,14 @@ def _run_until(env, t):
     """run(until=t); a finite scripted source that ends (ScriptDone) does not end the run."""
     from ..net import ScriptDone
     from ..tap import EmptySchedule, StopSimulation
-    try:
-        env.run(until=t)
-        return
-    except ScriptDone:
-        pass
     while True:
         try:
-            env.step()
-        except StopSimulation:
-            return
-        except EmptySchedule:
+            env.run(until=t)
             return
         except ScriptDone:
-            continue
+            # the call was abandoned by the harness's own end-of-script signal: call again for the same instant
+            if not env.now < t:
+                return
 
 
 def run_net(case):
@@ -363,7 +357,10 @@ def check_split(w, case, ref_log):
                     if pf is not None and isinstance(val, tuple) and val[1:] == pf[1:]:
                         stats['until_event_failed'] = 1      # the until-event failed: run() reports that failure
                     elif not (isinstance(val, tuple) and val[1] == 'RuntimeError' and lb not in processed):
-                        viol.append(('C03.3', 'run(until=%s) raised %r' % (lb, val)))
+                        # an unhandled failure of the program that escaped from a step of this call ends the call too
+                        prevx = next((q for q in reversed(log[:idx]) if q[0] in ('X', 'D')), None)
+                        if not (prevx is not None and prevx[0] == 'X' and prevx[3] == val):
+                            viol.append(('C03.3', 'run(until=%s) raised %r' % (lb, val)))
     if isinstance(case.get('t0'), int) and case.get('t0', 0) > 2 ** 53:
         stats['big_int_clock'] = 1
     for it in case.get('drive', []):
@@ -389,7 +386,8 @@ def run(case):
     crashy = any(r[0] == 'X' for r in ref_log)
     plan = list(case.get('drive', [])) + [['run']]
     if crashy:
-        plan = [it if it[0] in ('steps', 'run') else ['steps', 3] for it in plan]
+        # a condition the driver builds would count as the handler of an operand's failure: only in crash-free programs
+        plan = [['steps', 3] if it[0] == 'until_cond' else it for it in plan]
     w = setup_world(case)
     steps = drive(w, plan, max_steps=4000)
     case2 = dict(case)
